@@ -62,7 +62,7 @@ def gen_density(rng, f, kind=None):
                 e.append(0.0)
             else:
                 e.append(C.dyadic(rng, 0.5, 4.0, 10) * (fp / v) ** 5 * math.exp(-1.25 * (fp / v) ** 4))
-        e = [C.dyadic(rng, x, x, 14) if x > 0 else 0.0 for x in e]
+        e = [C.dyadic(rng, x, x, 14) if x > 1e-12 else 0.0 for x in e]      # no denormals: their products lose all precision
     elif kind == "random":
         e = [C.dyadic(rng, 0.0, 8.0, 12) for _ in f]
     elif kind == "sparse":
@@ -115,6 +115,8 @@ def gen_dirs(rng):
             acc += x
         if len(set(th)) < nd:
             th = [i * 360.0 / nd for i in range(nd)]
+    if rng.random() < 0.08:
+        return kind + "-descending", th[::-1]       # negative steps: the wrap must leave them negative
     return kind, th
 
 
@@ -452,7 +454,7 @@ def evaluate(ctx, cases, exact_upto):
                 nonneg = all((x is None) or x >= 0 for x in e_fl) and all(d >= 0 for d in (mrows[0].get("dstep") or [0]))
                 vm0, vm1, vm2 = C.unfx(b["m0"][pi]), C.unfx(b["m1"][pi]), C.unfx(b["m2"][pi])
                 inb = [x for x in c["f"] if in_band(lo, hi, x)]
-                if nonneg and vm1 > 0 and vm2 > 0 and not isbad(t1i) and not isbad(t2i):
+                if nonneg and vm1 > 1e-200 and vm2 > 1e-200 and vm0 > 1e-200 and not isbad(t1i) and not isbad(t2i):
                     ctx.tally("order-law checked")
                     if t2i > t1i * (1 + 1e-9):
                         ctx.oracle_fail("Tm02 = %r > Tm01 = %r for a non-negative spectrum" % (t2i, t1i), dict(rep, tm01=t1i, tm02=t2i))
@@ -603,7 +605,7 @@ CORPUS = [
 
 def run(ctx):
     rng = ctx.rng
-    n = ctx.n(230, 4500)
+    n = ctx.n(230, 4000)
     cases = list(CORPUS)
     while len(cases) < n:
         cases.append(gen_case(rng))
